@@ -109,6 +109,11 @@ type NodeVisitor func(context.Context, node.Node) bool
 // Different to the Visit method in the MKVS tree, this uses the NodeDB API directly
 // to traverse the tree to avoid the overhead of keeping the cache.
 func Visit(ctx context.Context, ndb NodeDB, root node.Root, visitor NodeVisitor) error {
+	if root.Hash.IsEmpty() {
+		// An empty tree has no nodes to visit.
+		return nil
+	}
+
 	ptr := &node.Pointer{
 		Clean: true,
 		Hash:  root.Hash,
